@@ -26,3 +26,6 @@ def decode_instruction(instr):
     elif substring(instr, 3, 0) == 0b0000 and substring(instr, 7, 4) == 0b0100:
         # Send Event hint
         return SevT1
+    else:
+        # unallocated hints execute as NOP
+        return NopT1
